@@ -151,7 +151,7 @@ func vBE(v, n int) string {
 // physical layout an independent writer chooses for the file.
 //
 //symgo:harness prop=C01 kernel=K5-whole-file-layouts
-//symgo:desc file bytes produced by a harness-local PDF writer and read through the file content model (os.Open/Stat/Seek/Read of the real reader; natively a real temporary file); logical document: 2 pages, page i shows "Page<i> first" and "Page<i> second" with Helvetica/WinAnsi; enumerated physical choices: cross-reference as classic table or as (unfiltered) cross-reference stream; with an xref stream, non-stream objects packed into an (unfiltered) object stream or not; page content in one stream or split over an array of two streams between operators; /Length direct or by reference with the length object after the stream; pages directly under the root or under an intermediate /Pages node, with /Resources and /MediaBox on the page or inherited from the root; zero or one incremental revision that replaces page 1's content stream or page 1's page object (which then points to a new content stream) (classic revisions append a classic section with /Prev, stream revisions an xref stream with /Prev and /Index); line ends LF or CRLF; content streams unfiltered or ASCIIHex over Flate (quick), plus Flate alone and ASCIIHex under its abbreviated name /AHx (thorough) - the Flate data are stored deflate blocks, inflated by the real compress/zlib, interpreted: PageCount is 2 and Pages(i).Text() holds exactly page i's current texts in content order and none of the other page's or of the replaced revision
+//symgo:desc file bytes produced by a harness-local PDF writer and read through the file content model (os.Open/Stat/Seek/Read of the real reader; natively a real temporary file); logical document: 2 pages, page i shows "Page<i> first" and "Page<i> second" with Helvetica/WinAnsi; enumerated physical choices: cross-reference as classic table or as (unfiltered) cross-reference stream; with an xref stream, non-stream objects packed into an (unfiltered) object stream or not; page content in one stream or split over an array of two streams between operators; /Length direct or by reference with the length object after the stream; pages directly under the root or under an intermediate /Pages node, with /Resources and /MediaBox on the page or inherited from the root; zero or one incremental revision that replaces page 1's content stream or page 1's page object (which then points to a new content stream) (classic revisions append a classic section with /Prev, stream revisions an xref stream with /Prev and /Index); line ends LF or CRLF; page 1's content stream short or - for flat page trees, LF and unfiltered content - longer than 4 KB (padded with comment lines); content streams unfiltered or ASCIIHex over Flate (quick), plus Flate alone and ASCIIHex under its abbreviated name /AHx (thorough) - the Flate data are stored deflate blocks, inflated by the real compress/zlib, interpreted: PageCount is 2 and Pages(i).Text() holds exactly page i's current texts in content order and none of the other page's or of the replaced revision
 func H_C01_text_survives_physical_layout() {
 	xrefStream := vAnyIntIn(0, 1) == 1
 	pack := xrefStream && vAnyIntIn(0, 1) == 1
@@ -223,8 +223,14 @@ func H_C01_text_survives_physical_layout() {
 			w.stream(num, filter+"/Length "+strconv.Itoa(len(data)), data)
 		}
 	}
+	// page 1's (first) content stream may be longer than the lexer's 4 KB read buffer; to keep the product of choices
+	// in reach this is varied only for flat page trees with LF line ends and unfiltered content
+	big := !deep && !inherit && eol == "\n" && filterKind == 0 && vAnyIntIn(0, 1) == 1
 	pageContent := func(a, b int, t1, t2 string) {
 		first := "BT /F1 12 Tf 72 720 Td (" + t1 + ") Tj" + eol
+		if big && a == 10 {
+			first += strings.Repeat("% a comment line that pads the content stream"+eol, 100)
+		}
 		second := "0 -20 Td (" + t2 + ") Tj ET"
 		if split {
 			putContent(a, first)
